@@ -3,6 +3,9 @@ package mon
 import (
 	"strings"
 
+	"google.golang.org/protobuf/encoding/prototext"
+	"google.golang.org/protobuf/proto"
+
 	"verifharness/core"
 )
 
@@ -41,4 +44,8 @@ func truncBytes(b []byte, n int) []byte {
 		return b[:n]
 	}
 	return b
+}
+
+func prototextMarshal(m proto.Message) string {
+	return prototext.MarshalOptions{Multiline: false}.Format(m)
 }
